@@ -180,47 +180,47 @@ Section TheoremA.
   Definition R (n : nid) : Prop := inGraph (nd s n) = true.
 
   Lemma closed_node n x : nodes s !! n = Some x -> node_closed s n x = true.
-  Proof.
+  Proof using Hcl. clear Hwf Htp Hco.
     intros H. unfold closed in Hcl. apply andb_true_iff in Hcl as [H1 _].
     exact (forallb_gmap _ _ _ _ H1 H).
   Qed.
 
   Lemma some_lt n : is_Some (nodes s !! n) -> (n < next s)%nat.
-  Proof.
+  Proof using Hcl. clear Hwf Htp Hco.
     intros [x Hx]. pose proof (closed_node _ _ Hx) as H. unfold node_closed in H.
     apply andb_true_iff in H as [H _]. by apply Nat.ltb_lt in H.
   Qed.
 
   Lemma R_some n : R n -> is_Some (nodes s !! n).
-  Proof.
+  Proof using. clear Hwf Hcl Htp Hco.
     unfold R. intros H. destruct (nodes s !! n) eqn:E; [eauto|].
     rewrite (nd_none _ _ E) in H. discriminate H.
   Qed.
 
   Lemma some_all n : is_Some (nodes s !! n) -> n ∈ allNodes s.
-  Proof.
+  Proof using Hcl. clear Hwf Htp Hco.
     intros H. unfold allNodes. apply elem_of_list_filter. split; [done|].
     apply elem_of_seq. pose proof (some_lt _ H). lia.
   Qed.
 
   Lemma R_all n : R n -> n ∈ allNodes s.
-  Proof. intros H. by apply some_all, R_some. Qed.
+  Proof using Hcl. clear Hwf Htp Hco. intros H. by apply some_all, R_some. Qed.
 
   Lemma R_registered n : R n -> n ∈ registered s.
-  Proof.
+  Proof using Hcl. clear Hwf Htp Hco.
     intros H. unfold registered. apply elem_of_list_filter. split; [done|].
     apply elem_of_seq. pose proof (some_lt _ (R_some _ H)). lia.
   Qed.
 
   Lemma R_cons n : R n -> valid (nd s n) = true /\ node_consistent s n = true.
-  Proof.
+  Proof using Hcl Hco. clear Hwf Htp.
     intros H. unfold consistent in Hco.
     pose proof (forallb_elem_of _ _ _ Hco (R_registered _ H)) as H1.
     by apply andb_true_iff in H1.
   Qed.
 
   Lemma R_parents_decl n : R n -> parents (nd s n) ≡ₚ decl (nd s n).
-  Proof.
+  Proof using Hwf Hcl Hco. clear Htp.
     intros H. destruct (wfb_clauses _ Hwf) as (_ & _ & Hpd & _).
     pose proof (forallb_elem_of _ _ _ Hpd (R_all _ H)) as H1. cbv beta zeta in H1.
     unfold R in H. rewrite H in H1. simpl in H1.
@@ -231,7 +231,7 @@ Section TheoremA.
   Qed.
 
   Lemma parent_R n a : R n -> a ∈ parents (nd s n) -> R a /\ (height (nd s a) < height (nd s n))%Z.
-  Proof.
+  Proof using Hwf Hcl. clear Htp Hco.
     intros Hn Ha. destruct (wfb_clauses _ Hwf) as (Hes & Hrn & _ & Hho & _).
     pose proof (forallb_elem_of _ _ _ Hes (R_all _ Hn)) as H1. cbv beta in H1.
     apply andb_true_iff in H1 as [H1 _].
@@ -254,13 +254,13 @@ Section TheoremA.
   Qed.
 
   Lemma rank_lt n a : R n -> R a -> (height (nd s a) < height (nd s n))%Z -> (rank s a < rank s n)%nat.
-  Proof.
+  Proof using Hcl. clear Hwf Htp Hco.
     intros Hn Ha Hlt. unfold rank.
     apply (filter_length_mono_lt _ _ _ a); [intros; lia|by apply R_registered|done|lia].
   Qed.
 
   Lemma rank_bound n : R n -> (rank s n + 1 <= next s)%nat.
-  Proof.
+  Proof using Hcl. clear Hwf Htp Hco.
     intros Hn. unfold rank.
     pose proof (filter_length_lt (fun m => (height (nd s m) < height (nd s n))%Z) (registered s) n
                   (R_registered _ Hn)) as H.
@@ -270,7 +270,7 @@ Section TheoremA.
   Qed.
 
   Lemma decl_R n a : R n -> a ∈ decl (nd s n) -> R a /\ (rank s a < rank s n)%nat.
-  Proof.
+  Proof using Hwf Hcl Hco. clear Htp.
     intros Hn Ha. rewrite <- (R_parents_decl _ Hn) in Ha.
     destruct (parent_R _ _ Hn Ha) as [H1 H2]. split; [done|]. by apply rank_lt.
   Qed.
@@ -278,7 +278,7 @@ Section TheoremA.
   (** Always nodes: [valueOf] reads through *)
   Lemma always_shape n : nkind (nd s n) = KAlways ->
     exists a, decl (nd s n) = [a] /\ (a < n)%nat /\ notLhs s a = true.
-  Proof.
+  Proof using Hcl. clear Hwf Htp Hco.
     intros Hk. destruct (nodes s !! n) as [x|] eqn:E.
     - pose proof (closed_node _ _ E) as H. rewrite (nd_lookup _ _ _ E) in *.
       unfold node_closed in H. rewrite Hk in H. apply andb_true_iff in H as [_ H].
@@ -288,7 +288,7 @@ Section TheoremA.
   Qed.
 
   Lemma valueOf_stable : forall a F, (S a <= F)%nat -> valueOf_ F s a = valueOf_ (S a) s a.
-  Proof.
+  Proof using Hcl. clear Hwf Htp Hco.
     intros a. induction (lt_wf a) as [a _ IH]. intros F HF.
     destruct F as [|F]; [lia|]. cbn [valueOf_].
     destruct (nkind (nd s a)) eqn:Hk; try reflexivity.
@@ -298,7 +298,7 @@ Section TheoremA.
 
   Lemma valueOf_always n a : nkind (nd s n) = KAlways -> decl (nd s n) = [a] -> (a < n)%nat ->
     valueOf s n = valueOf s a.
-  Proof.
+  Proof using Hcl. clear Hwf Htp Hco.
     intros Hk Hd Hlt. unfold valueOf at 1. cbn [valueOf_]. rewrite Hk, Hd.
     unfold valueOf. apply valueOf_stable. lia.
   Qed.
@@ -313,7 +313,7 @@ Section TheoremA.
     /\ R (b_lhs (bd s b)) /\ (rank s (b_lhs (bd s b)) < rank s b)%nat /\ notLhs s (b_lhs (bd s b)) = true
     /\ (forall x, b_rhs (bd s b) = Some x -> R x /\ (rank s x < rank s n)%nat /\ notLhs s x = true)
     /\ forallb parity_free (b_cases (bd s b)) = true.
-  Proof.
+  Proof using Hwf Hcl Htp Hco.
     intros Hn Hk. destruct (R_some _ Hn) as [x Hx].
     pose proof (closed_node _ _ Hx) as Hc. pose proof (nd_lookup _ _ _ Hx) as Hnd.
     unfold node_closed in Hc. rewrite <- Hnd in Hc. rewrite Hk in Hc.
@@ -345,7 +345,7 @@ Section TheoremA.
 
   Lemma decl_notLhs n a : R n -> (forall b, nkind (nd s n) <> KBindMain b) ->
     a ∈ decl (nd s n) -> notLhs s a = true.
-  Proof.
+  Proof using Hcl. clear Hwf Htp Hco.
     intros Hn Hk Ha. destruct (R_some _ Hn) as [x Hx].
     pose proof (closed_node _ _ Hx) as Hc. pose proof (nd_lookup _ _ _ Hx) as Hnd.
     unfold node_closed in Hc. rewrite <- Hnd in Hc. apply andb_true_iff in Hc as [_ Hc].
@@ -371,7 +371,7 @@ Section TheoremA.
       (forall r', r = Some r' -> R r' /\ (rank s r' < K)%nat /\ notLhs s r' = true) ->
       forall F F', (rkO r + 1 <= F)%nat -> (K <= F')%nat ->
       evalT F (eval s F') x e = Some (valO r).
-  Proof.
+  Proof using Hwf Hcl Htp Hco.
     intros IHK. induction e as [k| |m|f e IHe|f e1 IHe1 e2 IHe2|c e IHe|cases e IHe|];
       intros fm bx x r Hm Hpf Hr F F' HF HF';
       (destruct fm as [|fm]; [discriminate Hm|]); (destruct F as [|F]; [lia|]);
@@ -456,7 +456,7 @@ Section TheoremA.
   Qed.
 
   Lemma main_induction K : forall n, R n -> (rank s n < K)%nat -> notLhs s n = true -> P n /\ Q n.
-  Proof.
+  Proof using Hwf Hcl Htp Hco.
     induction K as [|K IHK]; [intros; lia|]. intros n Hn Hr Hnl.
     assert (Hin : forall a F, a ∈ decl (nd s n) -> notLhs s a = true -> (rank s n <= F)%nat ->
                               eval s F a = Some (valueOf s a)).
@@ -535,7 +535,6 @@ Proof.
     exact HP.
 Qed.
 
-About some_all.
 Lemma observed_registered s o n :
   wfb s = true -> closed s = true -> obs s !! o = Some n ->
   inGraph (nd s n) = true /\ notLhs s n = true.
@@ -550,7 +549,7 @@ Proof.
   assert (Hsome : is_Some (nodes s !! n)).
   { destruct (nodes s !! n) eqn:E; [eauto|]. rewrite (nd_none _ _ E) in Hin.
     simpl in Hin. by apply elem_of_nil in Hin. }
-  pose proof (forallb_elem_of _ _ _ Hrn (some_all s Hcl0 _ Hsome)) as H3. cbv beta in H3.
+  pose proof (forallb_elem_of _ _ _ Hrn (some_all s Hcl _ Hsome)) as H3. cbv beta in H3.
   assert (Hnec : isNecessary (nd s n) = true).
   { unfold isNecessary. destruct (observers (nd s n)) eqn:E; [by apply elem_of_nil in Hin|].
     rewrite (bool_decide_eq_false_2 (_ :: _ = [])) by done. simpl. by rewrite orb_true_r. }
